@@ -48,7 +48,7 @@ inductive Record where
 def videoIdPattern : String := "^[a-zA-Z0-9_-]{11}$"
 def channelIdPattern : String := "^UC[a-zA-Z0-9_-]{22}$"
 def queryVPattern : String := "v=([^&#]+)"
-def queryListPattern : String := "list=([^&#]+)"
+def queryListPattern : String := "list=([^&#?]+)"
 def nextVPattern : String := "next=%2Fwatch%3Fv%3D([^%&#]+)"
 def nestedNextVPattern : String := "next%3D%252Fwatch%253Fv%253D([^%&#]+)"
 def fragmentVPattern : String := "^(?:%2F|/)watch(?:%3F|\\?)v(?:%3D|=)([a-zA-Z0-9_-]{11})"
@@ -112,12 +112,14 @@ def litValueSearch (lit stops : List Char) : Str → Option Str
     | none => litValueSearch lit stops cs
 
 def stopsAmpHash : List Char := ['&', '#']
+def stopsAmpHashQm : List Char := ['&', '#', '?']
 def stopsPctAmpHash : List Char := ['%', '&', '#']
 
 /-- `QUERY_V_RE.search(s)` group 1 — `v=([^&#]+)`, `re.I` -/
 def queryV (s : Str) : Option Str := litValueSearch "v=".toList stopsAmpHash s
-/-- `QUERY_LIST_RE.search(s)` group 1 — `list=([^&#]+)`, `re.I` -/
-def queryList (s : Str) : Option Str := litValueSearch "list=".toList stopsAmpHash s
+/-- `QUERY_LIST_RE.search(s)` group 1 — `list=([^&#?]+)`, `re.I` (as repaired by 569f4b6: a
+playlist id stops at a `?` too) -/
+def queryList (s : Str) : Option Str := litValueSearch "list=".toList stopsAmpHashQm s
 /-- `NEXT_V_RE.search(s)` group 1 — `next=%2Fwatch%3Fv%3D([^%&#]+)`, `re.I` -/
 def nextV (s : Str) : Option Str := litValueSearch "next=%2fwatch%3fv%3d".toList stopsPctAmpHash s
 /-- `NESTED_NEXT_V_RE.search(s)` group 1 — `next%3D%252Fwatch%253Fv%253D([^%&#]+)`, `re.I` -/
@@ -191,12 +193,18 @@ def second (path : Str) : Except Err (Option Str) :=
     | none => .error .indexError
     | some x => .ok (some x)
 
-/-- `/user/` — youtube.py:359-370 -/
+/-- `seg.split("&", 1)[0]`: query arguments glued to the path with a `&` are no part of a name
+(716cf1e) -/
+def cutAmp (seg : Str) : Str := seg.takeWhile (· ≠ '&')
+
+/-- `/user/` — youtube.py:361-376: `user = splitted_path[1].split("&", 1)[0].strip()` (d47b8e8,
+716cf1e) -/
 def routeUser (path : Str) : Except Err (Option Record) :=
   match second path with
   | .error e => .error e
   | .ok none => .ok none
-  | .ok (some user) => .ok (if user = [] then none else some (.user user))
+  | .ok (some seg) =>
+    .ok (if strip (cutAmp seg) = [] then none else some (.user (strip (cutAmp seg))))
 
 /-- `/c/` — youtube.py:373-388 -/
 def routeC (path : Str) : Except Err (Option Record) :=
@@ -204,7 +212,7 @@ def routeC (path : Str) : Except Err (Option Record) :=
   | .error e => .error e
   | .ok none => .ok none
   | .ok (some seg) =>
-    let name := lstripChars seg ['@']
+    let name := cutAmp (lstripChars seg ['@'])
     .ok (if name = [] || blacklist.contains name then none else some (.channel none (some name)))
 
 /-- `/channel/` — youtube.py:390-401 -/
@@ -212,7 +220,9 @@ def routeChannel (path : Str) : Except Err (Option Record) :=
   match second path with
   | .error e => .error e
   | .ok none => .ok none
-  | .ok (some cid) => .ok (if cid = [] then none else some (.channel (some cid) none))
+  | .ok (some seg) =>
+    .ok (if strip (cutAmp seg) = [] then none
+      else some (.channel (some (strip (cutAmp seg))) none))
 
 /-- `/shorts/` — youtube.py:403-417 -/
 def routeShorts (fix : Bool) (path : Str) : Except Err (Option Record) :=
@@ -222,16 +232,14 @@ def routeShorts (fix : Bool) (path : Str) : Except Err (Option Record) :=
   | .ok (some v) =>
     .ok (if is_youtube_video_id (truncate fix v) then some (.short (truncate fix v)) else none)
 
-/-- the final `else` — youtube.py:419-432: the blacklist is consulted *before* the leading
-`@`s are removed -/
+/-- the final `else` — youtube.py:424-434 (as repaired by 55c9bda: the leading `@`s are removed
+*before* the blacklist is consulted; 716cf1e: the name stops at a `&`) -/
 def routeName (path : Str) : Option Record :=
   let path := rstripChars path ['/']
   if path.count '/' = 1 then
-    let name := lstripChars path ['/']
-    if blacklist.contains name then none
-    else
-      let name := lstripChars name ['@']
-      if name = [] then none else some (.channel none (some name))
+    let name := cutAmp (lstripChars (lstripChars path ['/']) ['@'])
+    if name = [] || blacklist.contains name then none
+    else some (.channel none (some name))
   else none
 
 /-- the `if / elif` chain on the path — youtube.py:327-432 -/
